@@ -25,13 +25,15 @@ def owner_of(fc, c):
     return None
 
 
-def gen_case(rng, cid, P, mode=0, ppn=4, ordering=1):
+def gen_case(rng, cid, P, mode=0, ppn=4, ordering=1, force_shared=False):
     N = rng.choice([max(P - 2, 1), P, P + 3, 2 * P + 5, 3 * P + 11])
+    if force_shared: N = rng.choice([2 * P + 5, 3 * P + 11])
     fc = rand_partition(rng, P, N)
     cols = []
     style = rng.random()
+    if force_shared: style = 0.9
     shared = None
-    if mode != 0 and rng.random() < 0.5 or rng.random() < 0.15:
+    if force_shared or (mode != 0 and rng.random() < 0.5 or rng.random() < 0.15):
         shared = sorted(rng.sample(range(N), min(N, rng.randint(2, max(2, N // 2)))))
     for p in range(P):
         cand = [c for c in range(N) if not (fc[p] <= c < fc[p + 1])]
